@@ -132,6 +132,19 @@ class DateTime(datetime.datetime, Date):
         if tz is not None:
             tz = pendulum._safe_timezone(tz, dt=dt)
 
+        fold = dt.fold
+        offset = dt.utcoffset()
+        if offset is not None and tz is not None:
+            # Some tzinfo implementations (pytz) keep the occurrence of a
+            # repeated wall time in the tzinfo instance rather than in ``fold``:
+            # pick the occurrence that has the UTC offset of the source.
+            naive = dt.replace(tzinfo=None)
+            if (
+                tz.utcoffset(naive.replace(fold=fold)) != offset
+                and tz.utcoffset(naive.replace(fold=1 - fold)) == offset
+            ):
+                fold = 1 - fold
+
         return cls.create(
             dt.year,
             dt.month,
@@ -141,7 +154,7 @@ class DateTime(datetime.datetime, Date):
             dt.second,
             dt.microsecond,
             tz=tz,
-            fold=dt.fold,
+            fold=fold,
         )
 
     @overload
